@@ -1,5 +1,6 @@
 import GoflowModel.Basic.Dec
 import GoflowModel.Basic.DateText
+import GoflowModel.Engine.Determinism
 import GoflowModel.Driver.Util
 /-
   numrender <coefficient> <exponent>        →  ok <hex text>
@@ -8,6 +9,8 @@ import GoflowModel.Driver.Util
   dtiso y m d h mi s nanos offMin           →  ok <hex text>
   dtparse <ymd|mdy|dmy> <currentYear> <hex> →  ok y m d h mi s nanos | iso y m d h mi s nanos offMin | err
   timeparse <hex>                           →  ok h mi s nanos | err
+  objget <hex names,…> <hex key>            →  ok <index of the property found> | none   (XObject.Get)
+  objprops <hex names,…>                    →  ok <hex names sorted>                      (XObject.Properties)
 -/
 namespace GoflowModel.Driver.Values
 open GoflowModel GoflowModel.Driver
@@ -72,6 +75,18 @@ def handle : List String → Option String
     match DateText.parseTime s with
     | none => some "err"
     | some t => some s!"ok {t.h} {t.mi} {t.s} {t.nanos}"
+  | ["objget", names, key] => do
+    -- properties carry their position as value; the answer is the position of the property found
+    let ns ← (if names == "-" then some [] else (names.splitOn ",").mapM decL)
+    let k ← decL key
+    let props := (ns.map String.ofList).zipIdx
+    match Determinism.getCI Determinism.lowerAscii props (String.ofList k) with
+    | none => some "none"
+    | some p => some s!"ok {p.2}"
+  | ["objprops", names] => do
+    let ns ← (if names == "-" then some [] else (names.splitOn ",").mapM decL)
+    let sorted := Determinism.collectSorted (fun a b => decide (a ≤ b)) id (ns.map String.ofList)
+    some ("ok " ++ ",".intercalate (sorted.map fun s => encL s.toList))
   | _ => none
 
 end GoflowModel.Driver.Values
